@@ -42,19 +42,28 @@ Definition apply_rows (T : table) (d : dbstate) (sel : list (sym * gmap sym valu
            Ok (<[t_name T := match n with Some r' => <[fst ur := r']> tb | None => delete (fst ur) tb end]> d'))
         sel d.
 
-Definition list_set_eqb (l1 l2 : list (gmap sym value)) : bool :=
-  forallb (fun x => bool_decide (x ∈ l2)) l1 && forallb (fun x => bool_decide (x ∈ l1)) l2.
+(** wait: a selected row matches an expected row if they agree on every
+    requested column the expected row provides; the selected rows equal the
+    expected rows if every selected row matches some expected row and every
+    expected row is matched by some selected row *)
+Definition wait_matches (cols : list sym) (found : row) (expected : row) : bool :=
+  forallb (fun c => match expected !! c with
+                    | Some x => bool_decide (found !! c = Some x)
+                    | None => true
+                    end) cols.
 
-Definition rows_eq_mod_cols (cols : list sym) (sel : list (sym * gmap sym value)) (rows : list (gmap sym value)) : bool :=
-  list_set_eqb ((fun ur => project cols (snd ur)) <$> sel) (project cols <$> rows).
+Definition wait_rows_equal (cols : list sym) (sel : list (sym * gmap sym value)) (rows : list (gmap sym value)) : bool :=
+  forallb (fun ur => existsb (wait_matches cols (snd ur)) rows) sel
+  && forallb (fun e => existsb (fun ur => wait_matches cols (snd ur) e) sel) rows.
 
-Definition exec_op (S : schema) (d : dbstate) (o : op) : result * dbstate :=
+Definition exec_op (S : schema) (d0 d : dbstate) (o : op) : result * dbstate :=
   let with_table t (k : table -> result * dbstate) :=
     match find_table S t with Some T => k T | None => (RErr EOther, d) end in
   match o with
   | OInsert t u w =>
       with_table t (fun T =>
         if row_exists d t u then (RErr EConstraint, d)
+        else if row_exists d0 t u then (RErr EOther, d)   (* deleted and re-inserted: merge.go rejects the sequence *)
         else match row_insert T w with
              | Ok r => (RUuid u, <[t := <[u := r]> (get_tbl d t)]> d)
              | Err e => (RErr e, d)
@@ -63,7 +72,7 @@ Definition exec_op (S : schema) (d : dbstate) (o : op) : result * dbstate :=
   | OSelect t wh cols =>
       with_table t (fun T =>
         if negb (conds_valid T wh) then (RErr EOther, d)
-        else (RRows ((fun ur => (fst ur, snd ur)) <$> select_uuids d t wh), d))
+        else (RRows (select_uuids d t wh), d))
   | OUpdate t wh w =>
       with_table t (fun T =>
         if negb (conds_valid T wh) then (RErr EOther, d)
@@ -93,19 +102,19 @@ Definition exec_op (S : schema) (d : dbstate) (o : op) : result * dbstate :=
   | OWait t wh cols until_eq rows =>
       with_table t (fun T =>
         if negb (conds_valid T wh) then (RErr EOther, d)
-        else let same := rows_eq_mod_cols cols (select_uuids d t wh) ((fun r => fill_row T (known_cols T r)) <$> rows) in
+        else let same := wait_rows_equal cols (select_uuids d t wh) rows in
              if Bool.eqb same until_eq then (REmpty, d) else (RErr ETimedOut, d))
   | OOther => (RErr ENotSupported, d)
   end.
 
 (** run the operations; stop at the first error, padding with [RNull] *)
-Fixpoint exec_ops (S : schema) (d : dbstate) (ops : list op) : list result * dbstate * bool :=
+Fixpoint exec_ops (S : schema) (d0 d : dbstate) (ops : list op) : list result * dbstate * bool :=
   match ops with
   | [] => ([], d, true)
   | o :: ops' =>
-    let '(r, d') := exec_op S d o in
+    let '(r, d') := exec_op S d0 d o in
     if is_err r then (r :: map (fun _ => RNull) ops', d, false)
-    else let '(rs, d'', ok) := exec_ops S d' ops' in (r :: rs, d'', ok)
+    else let '(rs, d'', ok) := exec_ops S d0 d' ops' in (r :: rs, d'', ok)
   end.
 
 (** uniqueness of every schema index *)
@@ -119,7 +128,7 @@ Definition db_unique (S : schema) (d : dbstate) : bool :=
 
 (** the whole transaction: results, and the new database if it commits *)
 Definition transact (S : schema) (d : dbstate) (ops : list op) : list result * option dbstate :=
-  let '(rs, w, ok) := exec_ops S d ops in
+  let '(rs, w, ok) := exec_ops S d d ops in
   if negb ok then (rs, None)
   else if bool_decide (w = d) then (rs, Some d)
   else match process_refs S w with
